@@ -210,8 +210,26 @@ def elem_of(stream):
 _closure_hook = [None]
 
 
+def subst_term(t, m):
+    """syntactic substitution of whole subterms"""
+    if t in m:
+        return m[t]
+    if isinstance(t, tuple):
+        return tuple(subst_term(x, m) if isinstance(x, tuple) else x for x in t)
+    return t
+
+
 def apply_closure(clo, args):
     """term of `clo(args...)`; needs the program (set by TermBuilder via _closure_hook)"""
+    if clo[0] == "lam":
+        # ("lam", formal, body): the body of a `for` loop summarised as the function it applies to each item
+        formal, body = clo[1], clo[2]
+        if len(args) == 1 and args[0] == formal:
+            return body
+        m = {formal: args[0]} if len(args) == 1 else {}
+        if len(args) == 1 and formal[0] == "tuple" and args[0][0] == "tuple" and len(formal[1]) == len(args[0][1]):
+            m.update(dict(zip(formal[1], args[0][1])))
+        return subst_term(body, m)
     if clo[0] == "closure" and _closure_hook[0] is not None:
         r = _closure_hook[0](clo, args)
         if r is not None:
@@ -250,8 +268,10 @@ def fmt(t, depth=0):
         return "|%s|{%s}" % (t[1].split("::")[-1], ", ".join(f(a) for a in t[2]))
     if k in ("elem", "enum_idx"):
         return "%s(%s)" % (k, f(t[1]))
-    if k in ("map", "zip", "filter", "enumerate", "rev", "chain"):
+    if k in ("map", "zip", "filter", "enumerate", "rev", "chain", "push"):
         return "%s(%s)" % (k, ", ".join(f(a) for a in t[1:]))
+    if k == "lam":
+        return "|%s| %s" % (f(t[1]), f(t[2]))
     if k == "phi":
         return "phi{%s}" % " | ".join(f(a) for a in t[1])
     if k == "rec":
@@ -373,7 +393,7 @@ def subterms(t):
     elif k == "closure":
         for a in t[2]:
             yield from subterms(a)
-    elif k in ("map", "zip", "filter", "enumerate", "rev", "chain"):
+    elif k in ("map", "zip", "filter", "enumerate", "rev", "chain", "push", "lam"):
         for a in t[1:]:
             if isinstance(a, tuple):
                 yield from subterms(a)
@@ -520,6 +540,118 @@ class TermBuilder:
         return any(d[0] in body for d in self._all_defs(l))
 
     def local(self, l, bb, idx, ignore_clobber=False):
+        t = self._local(l, bb, idx, ignore_clobber)
+        if "loopvar" in repr(t):
+            t = self._summarise_finished_loops(t, bb)
+        return t
+
+    def _summarise_finished_loops(self, t, bb):
+        """outside a loop, the loop-carried symbol of a vector that the loop only appends to is the collected stream"""
+        loops = self._loops()
+        m = {}
+        for s in subterms(t):
+            if s[0] == "loopvar" and s[2] in loops and bb not in loops[s[2]] and s not in m:
+                r = self._loop_summary(s[1], s[2])
+                if r is not None:
+                    m[s] = r
+        return subst_term(t, m) if m else t
+
+    def _loop_summary(self, l, h):
+        key = ("summary", l, h)
+        if key in self._memo:
+            return self._memo[key]
+        self._memo[key] = None          # recursion guard
+        r = None
+        init, upd = self.loop_init(l, h), self.loop_update(l, h)
+        lv = ("loopvar", l, h)
+        fresh = init[0] == "call" and init[1] in ("std::vec::Vec::new", "std::vec::Vec::with_capacity", "alloc::vec::Vec::new", "alloc::vec::Vec::with_capacity",
+                                                 "std::collections::HashMap::new", "std::collections::HashMap::with_capacity", "std::collections::BTreeMap::new")
+        def stateless(t):      # a function of the current item only: no other loop-carried state of this loop
+            return not any(x[0] == "loopvar" and x[2] == h for x in subterms(t))
+        if fresh and upd[0] == "push" and upd[1] == lv and stateless(upd[2]):
+            st = self._for_loop_stream(h)
+            if st is not None:
+                r = ("call", "std::iter::Iterator::collect", (("map", st, ("lam", elem_of(st), upd[2])),))
+        elif fresh and upd[0] == "phi" and len(upd[1]) == 2 and lv in upd[1]:
+            # the item is appended in some iterations only: a filter, when the append sits under exactly one test of the loop body
+            pu = [a for a in upd[1] if a != lv][0]
+            st = self._for_loop_stream(h)
+            if pu[0] == "push" and pu[1] == lv and stateless(pu[2]) and st is not None:
+                pred = self._push_condition(l, h)
+                if pred is not None and stateless(pred):
+                    el = elem_of(st)
+                    src = ("filter", st, ("lam", el, pred))
+                    same = pu[2] == el or (pu[2][0] == "tuple" and len(pu[2][1]) == 2 and pu[2][1] == (("tfield", el, 0), ("tfield", el, 1)))
+                    r = ("call", "std::iter::Iterator::collect", (src if same else ("map", src, ("lam", el, pu[2])),))
+        self._memo[key] = r
+        return r
+
+    def _push_condition(self, l, h):
+        """the single branch fact under which the loop body appends to local l (None when there is not exactly one)"""
+        from .guards import atomic_facts
+        fn = self.fn
+        body = self._loops()[h]
+        sites = [d for d in self._all_defs(l) if d[0] in body and d[2] == "clobber"]
+        if len(sites) != 1:
+            return None
+        pb = sites[0][0]
+        base = None
+        for b in body:
+            t = fn.blocks[b].term
+            if t.k == "switch" and fn.blocks[b].stmts and fn.blocks[b].stmts[-1].k == "assign" and fn.blocks[b].stmts[-1].rv.k == "discr":
+                arms = {int(v): tg for v, tg in t.j["arms"]}
+                if arms.get(0) is not None and arms[0] not in body and 1 in arms:
+                    base = arms[1]
+        if base is None:
+            return None
+        have = {repr(c): (c, tr) for c, tr in atomic_facts(fn, self.prog, pb, self)}
+        for c, tr in atomic_facts(fn, self.prog, base, self):
+            have.pop(repr(c), None)
+        if len(have) != 1:
+            return None
+        c, tr = list(have.values())[0]
+        return c if tr else simplify(("op", "Not", (c,)))
+
+    def _for_loop_stream(self, h):
+        """stream iterated by the `for` loop at head h, when the loop is left only on exhaustion of that stream"""
+        fn = self.fn
+        body = self._loops()[h]
+        its = set()
+        nexts = []
+        for b in body:
+            t = fn.blocks[b].term
+            if t.k == "call" and t.callee_decl() == "std::iter::Iterator::next" and len(t.args) == 1:
+                a = self.operand(t.args[0], b, len(fn.blocks[b].stmts))
+                if a[0] == "loopvar" and a[2] == h:
+                    its.add(a)
+                    nexts.append((b, t))
+        if len(its) != 1 or len(nexts) != 1:
+            return None
+        # every normal exit edge is the None arm of the switch on that next()'s result
+        nb, nt = nexts[0]
+        dest = nt.dest.local if nt.dest is not None and nt.dest.is_local() else None
+        for b in body:
+            for sx in fn.succs(b):
+                if sx in body or not fn.can_return(sx):
+                    continue
+                blk = fn.blocks[b]
+                if blk.term.k != "switch":
+                    return None
+                arms = {int(v): tgt for v, tgt in blk.term.j["arms"]}
+                if arms.get(0) != sx:
+                    return None
+                d = blk.term.discr
+                okd = False
+                if d.place is not None and d.place.is_local():
+                    for stt in blk.stmts:
+                        if stt.k == "assign" and stt.place.is_local() and stt.place.local == d.place.local and stt.rv.k == "discr" and stt.rv.place.local == dest:
+                            okd = True
+                if not okd:
+                    return None
+        it = next(iter(its))
+        return self.loop_init(it[1], it[2])
+
+    def _local(self, l, bb, idx, ignore_clobber=False):
         """term of local l just before statement idx of block bb.
         Loop-carried locals are cut at loop heads: inside (or after) a loop that redefines l,
         the value flowing around the back edge is the symbol ("loopvar", l, head)."""
@@ -657,21 +789,47 @@ class TermBuilder:
             nb = t.j.get("target")
             if nb is not None and self.fn.blocks[nb].term.k == "call" and self.fn.blocks[nb].term.callee_name() in IN_PLACE_PERMUTATIONS:
                 return self.local(l, b, i)
-        if ref_local is None or t.k != "call" or not t.callee_is_local() or self.prog is None or self.prog.fn(t.callee()) is None:
+        if fn.local_ty(l).startswith(("std::cell::RefMut<", "std::cell::Ref<", "&")):
+            # `&mut guard` (for DerefMut): what may change is the structure behind the guard, whose term is a place — the guard
+            # itself still denotes the same place
+            return self.local(l, b, i)
+        # the borrow may be consumed a few straight-line blocks later (other arguments are evaluated in between):
+        # follow the aliases of the reference to the call that takes it
+        aliases = {ref_local} if ref_local is not None else set()
+        cb, cblk, si = b, blk, i + 1
+        use = None
+        for _ in range(10):
+            for sj in range(si, len(cblk.stmts)):
+                s2 = cblk.stmts[sj]
+                if s2.k == "assign" and s2.place.is_local() and s2.rv.k in ("ref", "use") and (s2.rv.place or (s2.rv.ops[0].place if s2.rv.ops else None)) is not None:
+                    pl = s2.rv.place or s2.rv.ops[0].place
+                    if pl.local in aliases:
+                        aliases.add(s2.place.local)
+            ct = cblk.term
+            if ct.k == "call" and any(a.place is not None and a.place.is_local() and a.place.local in aliases for a in ct.args):
+                use = (cb, cblk, ct)
+                break
+            if cb != b and len(fn.preds()[cb]) != 1:
+                break
+            nxt = ct.succs()
+            if ct.k not in ("call", "assert", "goto") or len(nxt) != 1:
+                break
+            cb, cblk, si = nxt[0], fn.blocks[nxt[0]], 0
+        if use is None:
             return ("clobber", l)
-        # follow `_a = &mut (*_r)` reborrows inside the block
-        aliases = {ref_local}
-        for sj in range(i + 1, len(blk.stmts)):
-            s2 = blk.stmts[sj]
-            if s2.k == "assign" and s2.place.is_local() and s2.rv.k in ("ref", "use") and (s2.rv.place or (s2.rv.ops[0].place if s2.rv.ops else None)) is not None:
-                pl = s2.rv.place or s2.rv.ops[0].place
-                if pl.local in aliases:
-                    aliases.add(s2.place.local)
+        cb, cblk, t = use
         argi = None
         for k, a in enumerate(t.args):
             if a.place is not None and a.place.is_local() and a.place.local in aliases:
                 argi = k
-        if argi is None:
+        if t.callee_decl() in ("std::vec::Vec::push", "alloc::vec::Vec::push") and len(t.args) == 2 and argi == 0 and not self.fn.local_ty(l).startswith("&"):
+            # v.push(x): the vector after the call is the vector before it with x appended
+            return ("push", self.local(l, b, i), self.operand(t.args[1], cb, len(cblk.stmts)))
+        if t.callee_decl() in ("std::collections::HashMap::insert", "std::collections::BTreeMap::insert") and len(t.args) == 3 and argi == 0 \
+                and not self.fn.local_ty(l).startswith("&"):
+            # m.insert(k, v) on a map that is only built up: the map afterwards holds the pair as well
+            return ("push", self.local(l, b, i), ("tuple", (self.operand(t.args[1], cb, len(cblk.stmts)), self.operand(t.args[2], cb, len(cblk.stmts)))))
+        if not t.callee_is_local() or self.prog is None or self.prog.fn(t.callee()) is None:
             return ("clobber", l)
         before = self.local(l, b, i)   # value of l before the borrow
         args = []
@@ -679,10 +837,49 @@ class TermBuilder:
             if k == argi:
                 args.append(before)
             else:
-                args.append(self.operand(a, b, len(blk.stmts)))
+                args.append(self.operand(a, cb, len(cblk.stmts)))
         return ("call", "%s::out%d" % (t.callee(), argi + 1), tuple(args))
 
+    def _forwarded_store(self, p, bb, idx):
+        """`*r` read after `*r = v` through the same `&mut` scalar pointer r obtained inside this function (an entry's get_mut, an
+        iterator item, ...): the value read is v. Sound because r is unique while it is live; the search gives up at anything that
+        could write through r another way (a reborrow handed to a call, a join point)."""
+        fn = self.fn
+        l = p.local
+        ty = fn.local_ty(l)
+        if len(p.proj) != 1 or p.proj[0]["k"] != "deref" or not ty.startswith("&mut ") or l <= fn.arg_count \
+                or ty[5:].lstrip("'_ ") not in ("usize", "u64", "u32", "u16", "u8", "i64", "i32", "isize", "bool", "f64", "f32"):
+            return None
+        b, i = bb, idx
+        for _ in range(8):
+            blk = fn.blocks[b]
+            for si in range(min(i, len(blk.stmts)) - 1, -1, -1):
+                st = blk.stmts[si]
+                if st.k != "assign":
+                    continue
+                if st.place.local == l and len(st.place.proj) == 1 and st.place.proj[0]["k"] == "deref":
+                    return self.rvalue(st.rv, b, si)
+                if st.place.is_local() and st.place.local == l:
+                    return None          # the pointer itself is (re)defined here
+                if st.rv.k in ("ref", "rawptr") and st.rv.place is not None and st.rv.place.local == l:
+                    return None          # reborrowed: may be written through the reborrow
+            preds = fn.preds()[b]
+            if len(preds) != 1 or b in self._loops():
+                return None
+            pb = preds[0]
+            pt = fn.blocks[pb].term
+            if pt.k == "call" and any(a.place is not None and a.place.local == l for a in pt.args):
+                return None
+            if pt.k not in ("call", "assert", "goto", "drop", "switch"):
+                return None
+            b, i = pb, len(fn.blocks[pb].stmts)
+        return None
+
     def place(self, p, bb, idx, ignore_clobber=False):
+        if self.fn.kind != "Promoted":
+            fw = self._forwarded_store(p, bb, idx)
+            if fw is not None:
+                return fw
         t = self.local(p.local, bb, idx, ignore_clobber)
         if self.fn.kind != "Promoted":
             t = self._with_partial_defs(p.local, t, bb, idx)
@@ -915,7 +1112,7 @@ INLINE_SAFE_EXTERNAL = {"from_elem", "zero", "one", "checked_mul", "checked_add"
 NO_INLINE = {"start", "fingerprint", "hash", "iter_for", "h_i", "scan", "count", "sum", "calc_quotient_remainder", "insert_internal",
              "at_start_of_run", "has_run", "all_zero_intvector", "with_registers_and_hash", "with_params_and_hash", "with_params_and_hasher", "f", "fuse"}
 INLINE_SAFE_CALLEES = {"len", "element_bits", "deref", "borrow", "clone", "as_ref", "is_empty", "m", "k", "buildhasher", "bits_remainder",
-                       "is_some", "is_none", "mean", "delta", "f", "f_inv"}
+                       "is_some", "is_none", "mean", "delta", "f", "f_inv", "interpolate"}
 
 
 def term_at_call_arg(tb, fn, bb, argi):
